@@ -15,7 +15,7 @@ def cells():
     from .refgraph import gops_lang, gops2_lang
     out = []
     ops = families.ops_lang()
-    out.append(('OPS/a', ops, [('h1', 'Host', {}), ('h2', 'Host', {'hardened': 0.0}), ('d1', 'Data', {'encrypted': 1.0})],
+    out.append(('OPS/a', ops, [('h1', 'Host', {}), ('h2', 'Host', {'hardened': 0}), ('d1', 'Data', {'encrypted': 1})],
                 [('Peer', 'peers', ['h1'], 'peersOf', ['h2']), ('Holds', 'owner', ['h1'], 'datas', ['d1']),
                  ('Run', 'host', ['h1'], 'apps', ['h2']), ('Link_Host_Data', 'hostL', ['h1', 'h2'], 'dataL', ['d1'])],
                 [('h1', ['access', 'root']), ('d1', ['read'])]))
@@ -32,7 +32,7 @@ def cells():
     out.append(('DUPTAGS/a', dup, [('a', 'Tg', {}), ('b', 'Tg', {'dd': 0.0})], [('Nx', 'prevs', ['a'], 'nexts', ['b'])], [('a', ['go'])]))
     g1, g2 = gops_lang(), gops2_lang()
     out.append(('GOPS/a', g1, [('a', 'Nn', {'dd': 0.0}), ('b', 'Nn', {})], [('Peer', 'peers', ['b'], 'peersOf', ['a'])], [('a', ['go']), ('b', ['chk'])]))
-    out.append(('GOPS2/a', g2, [('a', 'Pp', {}), ('b', 'Qq', {'lock': 1.0}), ('c', 'Qq', {})],
+    out.append(('GOPS2/a', g2, [('a', 'Pp', {}), ('b', 'Qq', {'lock': True}), ('c', 'Qq', {})],
                 [('Kid', 'par', ['a'], 'kids', ['b', 'c'])], [('a', ['run'])]))
     sem_steps = [step('s0', 'or', reaches=[COL(UNI(F('rights'), V('vdown')), S('t'))]),
                  step('s1', 'and', reaches=[COL(SUB('Bb', TRA(F('down'))), S('t')), COL(DIF(F('peers'), F('down')), S('t'))]),
@@ -80,7 +80,7 @@ def write_inputs(d, cell):
     with open(mal, 'w', encoding='utf-8') as f:
         f.write(unparse.unparse(sp))
     if isinstance(assets, str):
-        return mar, mal, assets[5:]
+        return mar, mal, assets[5:], None
     fx = langs.fixture(sp, key=('C16', name))
     m = Model('m ' + name, fx.factory)
     objs = {}
@@ -97,7 +97,7 @@ def write_inputs(d, cell):
             at.add_entry_point(objs[n], s)
     mp = os.path.join(d, 'model.yml')
     m.save_to_file(mp)
-    return mar, mal, mp
+    return mar, mal, mp, (fx, m)
 
 
 def run_cell(d, cell):
@@ -107,8 +107,16 @@ def run_cell(d, cell):
     from maltoolbox.attackgraph.analyzers.apriori import calculate_viability_and_necessity
     from maltoolbox.wrappers import create_attack_graph
     name, sp = cell[0], cell[1]
-    mar, mal, mp = write_inputs(d, cell)
+    mar, mal, mp, inmem = write_inputs(d, cell)
     out = {'hashes': {}, 'problems': []}
+    if inmem is not None:
+        # the model as it was built through the API (defense values as the caller gave them: ints, floats),
+        # never saved or loaded
+        fx, m = inmem
+        g = AttackGraph(fx.lang_graph, m)
+        g.attach_attackers()
+        calculate_viability_and_necessity(g)
+        out['hashes']['api_inmemory#0'] = sha(g._to_dict())
     # direct API, twice on the same language graph and model
     spec = copy.deepcopy(sp)
     lg = LanguageGraph(spec)
